@@ -29,7 +29,7 @@ def selected(v, selfref, x):
     hide = sel(H(v, "hide_undoc"), sel(H(v, "settings"), selfref))
     docs = lst(v, "doc_list", x, "str")
     disp = lst(v, "display", selfref, "str")
-    return z3.And(z3.Or(z3.Not(hide), z3.Length(docs) > 0), z3.Contains(disp, z3.Unit(sel(H(v, "permission"), x))))
+    return z3.And(z3.Or(z3.Not(hide), z3.Length(docs) > 0), z3.Contains(disp, z3.Unit(SID(sel(H(v, "permission"), x)))))
 
 
 def base(c: Contract):
@@ -104,7 +104,7 @@ def filter_display(prop="C05"):
 # ---------------------------------------------------------------- global filter spec (heap dependencies are arguments)
 A_I_I = z3.ArraySort(I, I)
 FILTSEL = z3.Function("FILTSEL", z3.SeqSort(I), I, I, A_I_I, z3.ArraySort(I, z3.BoolSort()), A_I_I,
-                      z3.ArraySort(I, z3.SeqSort(S)), A_I_I, z3.ArraySort(I, S), z3.SeqSort(I))
+                      z3.ArraySort(I, z3.SeqSort(I)), A_I_I, z3.ArraySort(I, S), z3.SeqSort(I))
 
 
 def _selargs(v, selfref):
@@ -346,3 +346,127 @@ def prune_type(prop="C05"):
 
 def prune_blockdata(prop="C05"):
     return _simple_prune("FortranBlockData.prune", "FortranBlockData", ["types", "variables"], prop, recurse=True)
+
+
+# ---------------------------------------------------------------- link emission: FortranBase.__str__
+FULL_URL = z3.Function("FULL_URL", I, S)          # full_url of an entity ('' encodes None); its own contract is under C09
+
+
+def str_method(prop="C05"):
+    c = base(Contract("ford.sourceform", "FortranBase.__str__", prop))
+    c.param("self", TRef("FortranBase"))
+    c.props["full_url"] = lambda eng, path, obj: SStr(FULL_URL(obj.t))
+    c.assumed.append("self.full_url is a pure property (its builder get_url is under contract in C09); None is encoded as the empty string")
+    vis = lambda v: z3.Or(z3.Not(z3.Select(v._e.has_array(v._p, "visible"), v.self)), sel(H(v, "visible"), v.self))
+    name = lambda v: sel(H(v, "name"), v.self)
+
+    def post(v0, res, v1):
+        r = v1._e.to_str(v1._p, res)
+        plain = r == name(v0)
+        return z3.And(z3.Implies(z3.Not(vis(v0)), plain),                                     # an unselected entity is never linked
+                      z3.Implies(z3.Length(FULL_URL(v0.self)) == 0, plain),
+                      z3.Implies(z3.Not(plain), z3.PrefixOf(z3.Concat(z3.StringVal("<a href='"), FULL_URL(v0.self), z3.StringVal("'>")), r)))
+    c.ensures("anchor_only_for_visible_entities_with_a_url", post)
+    c.no_raise = True
+    return c
+
+
+# ---------------------------------------------------------------- graph node URLs: BaseNode.__init__ final block
+def basenode_url_block(prop="C05"):
+    from pyvc.blocks import between
+    c = Contract("ford.graphs", "BaseNode.__init__", prop)
+    c.qual_suffix = "url_block"
+    c.block_select = between("if self.url and getattr(obj, 'visible', True)", "self.afferent")
+    c.dropped.append("block contract: only the statement `if self.url and getattr(obj, 'visible', True): ...` of BaseNode.__init__")
+    c.fields = {"url": "str", "fromstr": "bool", "attribs": "dict:str:str", "visible": "bool", "parent_dir": "str", "external_url": "str"}
+    c.param("self", TRef("BaseNode"))
+    c.param("obj", TRef("FortranBase"))
+    c.param("graph_data", TRef("GraphData"))
+
+    def setup(eng, path):
+        path.heap._dmap(SDict(0, "str", "str"))
+    c.extra_setup.append(setup)
+    URLK = z3.StringVal("URL")
+
+    def has_url(v):
+        d = SDict(sel(H(v, "attribs"), v.self), "str", "str")
+        return z3.Select(v.heap.dict_has(d), URLK)
+    vis = lambda v: z3.Or(z3.Not(z3.Select(v._e.has_array(v._p, "visible"), v.obj)), sel(H(v, "visible"), v.obj))
+    c.ensures("URL_attribute_only_for_visible_entities", lambda v0, res, v1: z3.Implies(z3.And(has_url(v1), z3.Not(has_url(v0))), vis(v0)))
+    c.ensures("URL_attribute_set_when_visible_and_has_url",
+              lambda v0, res, v1: z3.Implies(z3.And(vis(v0), z3.Length(sel(H(v0, "url"), v0.self)) > 0), has_url(v1)))
+    c.no_raise = True
+    return c
+
+
+# ---------------------------------------------------------------- display inheritance: _set_display
+def set_display(prop="C05"):
+    c = base(Contract("ford.sourceform", "FortranBase._set_display", prop))
+    c.param("self", TRef("FortranBase"))
+    c.fields["display"] = "list:str"
+    cm = class_model()
+    E = lambda v: V(v._e, v._e.entry)
+    c.extra_setup.append(lambda eng, path: path.heap._lmap("str"))
+    c.requires("not_a_source_file", lambda v: z3.Not(cm.is_a(v.self, "FortranSourceFile")))      # the `none`-stripping loop of source files is a separate case
+    c.requires("meta_is_its_own_object", lambda v: z3.And(sel(H(v, "meta"), v.self) != v.self, sel(H(v, "meta"), v.self) != sel(H(v, "parent"), v.self),
+                                                        sel(H(v, "meta"), v.self) > 0, sel(H(v, "parent"), v.self) >= 0))
+    par = lambda v: sel(H(v, "parent"), v.self)
+    meta_disp = lambda v: lst(v, "display", sel(H(v, "meta"), v.self), "str")
+    LOW = z3.Function("LOWSEQ", z3.SeqSort(I), I, z3.SeqSort(I))      # [x.lower() for x in seq[0:k]] over interned strings
+
+    def unfold(v):
+        seq = v.it.seq
+        return [LOW(seq, 0) == z3.Empty(z3.SeqSort(I)), LOW(seq, v.k + 1) == z3.Concat(LOW(seq, v.k), z3.Unit(SID(LOWER(STR_OF(seq[v.k])))))]
+    c.hints["listcomp"] = "str"
+    c.loop(0, invariants=[("tmp_is_lowered_prefix", lambda v: v._lc0 == LOW(v.it.seq, v.k)),
+                          ("frame", lambda v: sel(H(v, "display"), v.self) == z3.If(par(E(v)) != 0, sel(H(E(v), "display"), par(E(v))), sel(H(E(v), "display"), E(v).self)))],
+           unfold=unfold, variant=lambda v: z3.Length(v.it.seq) - v.k)
+
+    def post(v0, res, v1):
+        md = meta_disp(v0)
+        tmp = LOW(md, z3.Length(md))
+        inherited_id = z3.If(par(v0) != 0, sel(H(v0, "display"), par(v0)), sel(H(v0, "display"), v0.self))
+        has = lambda w: z3.Contains(tmp, z3.Unit(SID(z3.StringVal(w))))
+        new = lst(v1, "display", v1.self, "str")
+        field = sel(H(v1, "display"), v1.self)
+        return z3.And(
+            z3.Implies(z3.Length(tmp) == 0, field == inherited_id),                                   # no override: the parent's selection is inherited
+            z3.Implies(z3.And(z3.Length(tmp) > 0, has("none")), z3.Length(new) == 0),                 # none: nothing below is shown
+            z3.Implies(z3.And(z3.Length(tmp) > 0, z3.Not(has("none")), z3.Not(z3.Or(has("public"), has("private"), has("protected")))), field == inherited_id),
+            z3.Implies(z3.And(z3.Length(tmp) > 0, z3.Not(has("none")), z3.Or(has("public"), has("private"), has("protected"))), new == tmp))
+    c.ensures("display_is_inherited_unless_overridden_in_the_entity_metadata", post)
+    c.no_raise = True
+    return c
+
+
+def entity_settings_default_display(prop="C05"):
+    """from_project_settings must leave `display` at its dataclass default (empty = 'no per-entity override'); decided on the AST of the
+    classmethod and of the dataclass field (a constructor call with keywords is outside Engine A's subset)"""
+    import ast as _ast
+    from harness.core import OR, PROVED, REFUTED, UNKNOWN
+    fn = loader.find_def("ford.settings", "EntitySettings.from_project_settings")
+    cls = loader.find_def("ford.settings", "EntitySettings")
+    calls = [n for n in _ast.walk(fn) if isinstance(n, _ast.Call) and isinstance(n.func, _ast.Name) and n.func.id == "cls"]
+    out = []
+    if len(calls) != 1:
+        return [OR(id=f"{prop}.S.EntitySettings.from_project_settings.shape", status=UNKNOWN, kind="S", target="ford.settings.EntitySettings.from_project_settings",
+                   detail="expected a single cls(...) call")]
+    kws = {k.arg for k in calls[0].keywords}
+    dflt = None
+    for st in cls.body:
+        if isinstance(st, _ast.AnnAssign) and isinstance(st.target, _ast.Name) and st.target.id == "display":
+            dflt = _ast.unparse(st.value) if st.value is not None else None
+    ok = "display" not in kws and not calls[0].args and dflt in ("field(default_factory=list)", "[]")
+    r = OR(id=f"{prop}.S.EntitySettings.from_project_settings.display_not_copied", status=PROVED if ok else REFUTED, kind="S", role="post", backend="ast",
+           target="ford.settings.EntitySettings.from_project_settings",
+           desc="ensures result.display == [] : the project-wide display is not copied into every entity's metadata (it would read as a per-entity override)")
+    if not ok:
+        r.witness = {"keywords": sorted(k for k in kws if k), "display_default": dflt}
+        try:
+            st = loader.import_repo("ford.settings")
+            es = st.EntitySettings.from_project_settings(st.ProjectSettings(display=["public", "private"]))
+            r.replay = {"confirmed": bool(es.display), "input": "EntitySettings.from_project_settings(ProjectSettings(display=['public','private']))",
+                        "actual": es.display, "expected": []}
+        except Exception as ex:
+            r.replay = {"confirmed": False, "error": str(ex)}
+    return [r]
